@@ -468,6 +468,9 @@ func runCase(c tcase) result {
 	if c.Mode == "stress" {
 		return runStressCase(c)
 	}
+	if c.Mode == "fault" {
+		return runFaultCase(c)
+	}
 	r := result{ID: c.ID}
 	r.Conc = runOnce(c, true, nil, nil)
 	// serial reference executes only the ops that reported success concurrently
